@@ -7,6 +7,7 @@ them to, (b) the READ-ONLY pipeline steps that run against the live cache betwee
   pkg/scheduler/plugins/deviceshare/eventhandler_pod.go
       onPodAdd / onPodUpdate / onPodDelete (type assertions and the tombstone type switch),
       registerPodEventHandler (reservations are fed through the SAME three handlers)
+  pkg/scheduler/plugins/deviceshare/eventhandler_device.go  onDeviceAdd / onDeviceUpdate / onDeviceDelete
   pkg/util/reservation/reservation_to_pod_eventhandler.go
       NewReservationToPodEventHandler (cache.FilteringResourceEventHandler + IsObjValidActiveReservation),
       ReservationToPodEventHandler.{OnAdd, OnUpdate, OnDelete}
@@ -98,6 +99,21 @@ def revOps : REv → List Op
     else if older then (if decodeDelete so then deletePodOps p old.pod else [])
     else []
   | .rsvDelete sh p r => if rsvFilter sh r && decodeDelete sh then deletePodOps p r.pod else []
+
+/-- Device informer events (eventhandler_device.go onDeviceAdd / onDeviceUpdate / onDeviceDelete): add / update install
+    the reported inventory (updateNodeDevice), a delete — typed object or tombstone by value, the same type switch as for
+    pods — INVALIDATES it (invalidateNodeDevice: every device unhealthy, i.e. `inv` = the inventory with empty lists),
+    so that nothing is handed out while the Device object is gone. -/
+inductive DEv where
+  | devAdd (sh : Shape) (nt : DevRes)
+  | devUpdate (shOld shNew : Shape) (nt : DevRes)
+  | devDelete (sh : Shape) (inv : DevRes)
+deriving Repr
+
+def devOps : DEv → List Op
+  | .devAdd sh nt => if decodeObj sh then [Op.refresh nt] else []
+  | .devUpdate so sn nt => if decodeObj so && decodeObj sn then [Op.refresh nt] else []
+  | .devDelete sh inv => if decodeDelete sh then [Op.refresh inv] else []
 
 /-! ### (b) read-only steps -/
 
